@@ -52,6 +52,27 @@ def algebra_options(opts):
     return kw
 
 
+def _witness(K, u, alg, op, args, raised):
+    """For a numeric operand on which inverse/division raised ZeroDivisionError: search a
+    zero-divisor witness (verified by TLC, not here)."""
+    if raised != 'ZeroDivisionError':
+        return None
+    import pyref
+    from fractions import Fraction
+    x = args[-1] if op in ('div', 'mulinv', 'rdiv') else args[0]
+    try:
+        xd = {int(k): Fraction(K.coef_to_G(v).subs({})) for k, v in zip(x.keys(), x.values())}
+    except Exception:   # noqa: BLE001  (generic operand: the null-blade rule of the spec applies)
+        return None
+    xd = {k: v for k, v in xd.items() if v}
+    if not xd:
+        return K.mv_from(alg, (0,), [1])       # x = 0: 0 * 1 = 0
+    w = pyref.zero_divisor_witness(u, xd)
+    if w is None:
+        return None
+    return K.mv_from(alg, tuple(w.keys()), list(w.values()))
+
+
 def run_job(job):
     import kdriver as K
     u, opts = job['u'], job.get('opts', {})
@@ -72,10 +93,11 @@ def run_job(job):
         if job.get('fresh'):
             alg = K.make_algebra(u, **algebra_options(opts))
         eid = f"{job['prefix']}:{i}"
-        args = [K.generic_mv(alg, keys, n + 1) for n, keys in enumerate(keylists)]
+        args = [K.operand(alg, spec, n + 1) for n, spec in enumerate(keylists)]
         signal.alarm(budget)
         try:
-            ev = K.op_event(eid, op, args, params, extra=job.get('extra'))
+            ev = K.op_event(eid, op, args, params, extra=job.get('extra'),
+                            witness=(lambda raised: _witness(K, u, alg, op, args, raised)) if job.get('witness') else None)
             signal.alarm(0)
             events.append(ev)
         except _Timeout:
